@@ -615,6 +615,11 @@ fn spawn_async_ao_list_in_task'''),
         ('file-target-takes-the-first-of-several-words', 'brush-core/src/interp.rs', "                    if expanded_fields.len() != 1 {\n                        return Err(error::ErrorKind::InvalidRedirection.into());\n                    }\n\n                    let expanded_file_path: PathBuf =", "                    if expanded_fields.is_empty() {\n                        return Err(error::ErrorKind::InvalidRedirection.into());\n                    }\n\n                    let expanded_file_path: PathBuf ="),
         ('duplicate-target-check-dropped', 'brush-core/src/interp.rs', "                    if expanded_fields.len() != 1 {\n                        return Err(error::ErrorKind::InvalidRedirection.into());\n                    }\n\n                    let mut expanded = expanded_fields.remove(0);", "                    if expanded_fields.len() > 1 {\n                        return Err(error::ErrorKind::InvalidRedirection.into());\n                    }\n\n                    let mut expanded = expanded_fields.remove(0);"),
     ],
+    'U3c': [
+        ('status-update-counted-only-when-the-value-changes', 'brush-core/src/shell.rs', "        self.last_exit_status = status;\n        self.last_exit_status_change_count += 1;", "        if self.last_exit_status != status {\n            self.last_exit_status = status;\n            self.last_exit_status_change_count += 1;\n        }"),
+        ('assignment-only-command-always-succeeds', 'brush-core/src/interp.rs', "            if status_change_count_before_expansion == context.shell.last_exit_status_change_count()\n            {\n                context.shell.set_last_exit_status(0);\n            }", "            context.shell.set_last_exit_status(0);"),
+        ('assignment-only-command-compares-with-greater-than', 'brush-core/src/interp.rs', "            if status_change_count_before_expansion == context.shell.last_exit_status_change_count()\n            {", "            if status_change_count_before_expansion > context.shell.last_exit_status_change_count()\n            {"),
+    ],
     'U27b': [
         ('end-tag-match-attempted-on-an-empty-token-before-the-body', 'brush-parser/src/tokenizer.rs', "                    if (matches!(self.cross_state.here_state, HereState::InHereDocs)\n                        || state.started_token())\n                        && self.remove_here_end_tag(&mut state, &mut result, false)?\n                    {", "                    if self.remove_here_end_tag(&mut state, &mut result, false)? {"),
         ('end-tag-reported-matched-without-delimiting', 'brush-parser/src/tokenizer.rs', "                // Delimit the end of the here-document body.\n                *result = state.delimit_current_token(\n                    TokenEndReason::HereDocumentBodyEnd,\n                    &mut self.cross_state,\n                )?;\n", ""),
